@@ -66,12 +66,24 @@ Proof.
   split; [intros (-> & ->); reflexivity|intros E; repeat split; congruence].
 Qed.
 
-Definition tex_key (t : ptexture) := (tx_uri t, option_map samp_key (tx_samp t)).
+Definition tex_key (t : ptexture) := (tx_uri t, tx_exts t, tx_xcls t, option_map (fun s => (samp_key s, gs_name s)) (tx_samp t)).
+Lemma keyed_texext : keyed ext_eqb (fun x => x).
+Proof.
+  intros [a b] [a' b']. unfold ext_eqb. cbn [fst snd]. rewrite andb_true_iff, String.eqb_eq, Bool.eqb_true_iff.
+  split; [intros (-> & ->); reflexivity|intros E; split; congruence].
+Qed.
 Lemma keyed_ptex : keyed ptex_equal (option_map tex_key).
 Proof.
   intros [x|] [y|]; cbn [ptex_equal option_map]; try (split; [discriminate|discriminate]); [|tauto].
-  unfold tex_key. rewrite andb_true_iff, String.eqb_eq, (keyed_opt _ _ keyed_samp_fields).
-  split; [intros (-> & ->); reflexivity|intros E; repeat split; congruence].
+  unfold tex_key. rewrite !andb_true_iff, String.eqb_eq, (keyed_opt _ _ keyed_samp), keyed_listN.
+  rewrite (keyed_list _ _ keyed_texext), !map_id.
+  split; [intros (((-> & ->) & ->) & ->); reflexivity|intros E; repeat split; congruence].
+Qed.
+(* with the repaired equality, equal textures have the same extension list and the same sampler (name included) *)
+Lemma ptex_equal_detail x y : ptex_equal (Some x) (Some y) = true ->
+  tx_uri x = tx_uri y /\ tx_exts x = tx_exts y /\ opt_eqb samp_eqb (tx_samp x) (tx_samp y) = true.
+Proof.
+  cbn [ptex_equal]. rewrite !andb_true_iff, String.eqb_eq, (keyed_list _ _ keyed_texext), !map_id. tauto.
 Qed.
 Definition texs_key (t : ptexture * option N) := (tex_key (fst t), snd t).
 Lemma keyed_ptexs : keyed ptexs_equal (option_map texs_key).
